@@ -31,7 +31,7 @@ import mixgen
 
 META = {
     'text': 'Theorems (Lean 4, for EVERY library, particle and input; the model carries the code variant of the two former defect sites, the harness determines on every run which variant the tree under test is — evidence field code_variant; since commit eece3d5 it is the REPAIRED one, for which the claimed theorem is the FULL statement return_all_eq_individual): over a model of the call structure of dbm.FluidParticle / dbm.InsolubleParticle (which library routine each method calls with which arguments and how the answers are combined) return_all equals the tuple assembled from the individual methods for gas and liquid particles and for inert particles unconditionally, and for mixed-phase particles under the stated hypotheses (flash result independent of the warm-start K; the two defect conditions excluded); for the REPAIRED text of the two sites the full statement (single hypothesis: flash independent of K) is proved; for the code as first read the full statement is REFUTED in Lean by concrete libraries (individual methods test the number of zero entries of the liquid row instead of the liquid total; the single-phase-gas viscosity branch reads the liquid row). The model is tied to the real code by oracle-table correspondence (recorded dbm_f / seawater / flash calls replayed through the model: same questions, same outputs, same cache) and the two real tuples are compared directly on every generated case.',
-    'note': 'Trusted: Lean kernel + 3 standard axioms; the hand transcription Model/Particle09.lean (validated each run by the oracle-table correspondence on every generated case); recorders installed by monkeypatching dbm.dbm_f / dbm.seawater / FluidMixture.equilibrium. NOT modelled: the equations of state, the flash and the particle correlations themselves (library parameters of the model); fp_type > 2. The hypothesis "flash result independent of the warm-start K" holds numerically only to the flash tolerance, so mixed-phase tuples are compared at TOL[flash_fugacity].',
+    'note': 'Trusted: Lean kernel + 3 standard axioms; the hand transcription Model/Particle09.lean (validated each run by the oracle-table correspondence on every generated case); recorders installed by monkeypatching dbm.dbm_f / dbm.seawater / FluidMixture.equilibrium. NOT modelled: the equations of state, the flash and the particle correlations themselves (library parameters of the model); fp_type > 2. The hypothesis "flash result independent of the warm-start K" is tested on every run (the same mixed-phase query with an empty and with a different cached K, bit-wise): while the warm start is DEAD (upstream: equil_MM never uses K_0) it holds exactly and mixed-phase tuples are compared at 1e-12; only if it is found LIVE the flash tolerance TOL[flash_fugacity] is used (evidence fields flash_warm_start, mixed_phase_tolerance). 5 of the 10 pinned theorems concern the former (defective) text of the two sites, which no longer exists in /repo: they document the refutation and keep the detector meaningful if the old lines return.',
     'technique': 'Lean 4 proof over a hand-written model of the call structure, generic in the library and in the monad + oracle-table correspondence on recorded library calls + direct comparison of the two real tuples',
 }
 GEN = []
@@ -63,6 +63,10 @@ def extra(ctx):
     rep = not v['zeroEntryTest'] and not v['gasViscLiquidRow']
     return {'code_variant': {'zeroEntryTest': bool(v['zeroEntryTest']), 'gasViscLiquidRow': bool(v['gasViscLiquidRow']),
                              'name': 'repaired' if rep else 'as first read (defect present)'},
+            'flash_warm_start': 'live' if WARM['live'] else 'dead',
+            'mixed_phase_tolerance': mixed_tol(),
+            'pinned_theorems_about_former_variants': '5 of 10 (not_return_all_eq_individual, zero_entry_density, zero_entry_hyps, '
+                                                     'viscosity_row_witness, viscosity_row_reaches_tuple refute the statement for the text as first read)',
             'claimed_theorem': ('TamocV.Props.C09.return_all_eq_individual (FULL statement: every library with the shape contract, every '
                                 'particle, cache and input; single hypothesis FlashStable for mixed-phase particles) + '
                                 'inert_return_all_eq_individual (full, unconditional)') if rep else
@@ -355,6 +359,45 @@ def detect_code_variant(ctx=None):
     return dict(CODE)
 
 
+# is the warm start of the flash LIVE in the tree under test?  (upstream it is dead: the guard of dbm.equil_MM,
+# isinstance(np.sum(K_0), type(np.nan)), is always true, so the cached K is never used as initial guess)
+WARM = {'live': None}
+
+
+def detect_warm_start(ctx=None):
+    """asks the same two-phase query twice on one mixed-phase particle, once with an empty cache and once with a
+    deliberately different cached K, and compares the answers BIT-WISE; also the flash itself with K=None / K given"""
+    from tamoc import dbm
+    live = False
+    probes = [(['methane', 'n-decane'], [0.6e-6, 0.4e-6], 290., 5e6),
+              (['methane', 'ethane', 'n-hexane', 'toluene'], [0.5e-6, 0.1e-6, 0.3e-6, 0.2e-6], 288.15, 2e6),
+              (['carbon_dioxide', 'propane', 'benzene'], [0.3e-6, 0.3e-6, 0.4e-6], 300., 1.5e6)]
+    for comp, m, T, P in probes:
+        with S.quiet():
+            fp = dbm.FluidParticle(list(comp), fp_type=2)
+            m = np.array(m)
+            mi0, _x, K = fp.equilibrium(m, T, P)
+            Kp = np.array(K, dtype=float) * np.array([3., 0.3, 2., 0.5][:len(comp)])
+            mi1, _x, _K = fp.equilibrium(m, T, P, Kp)
+            fp.K = None
+            a = flat(fp.return_all(m, T, P, 35., 285., -1))
+            fp.K = Kp.copy()
+            b = flat(fp.return_all(m, T, P, 35., 285., -1))
+        if not (np.array_equal(mi0, mi1, equal_nan=True) and close(a, b, 0.)):
+            live = True
+    WARM['live'] = live
+    if ctx is not None:
+        ctx.notes.append('warm start of the flash from the cached FluidParticle.K: %s -> mixed-phase results are compared at %s'
+                         % ('LIVE (answers depend on the cached K)' if live else 'DEAD (bit-identical answers whatever K is cached)',
+                            'the flash tolerance %g' % TOL['flash_fugacity'] if live else 'relative 1e-12'))
+    return live
+
+
+def mixed_tol():
+    """tolerance for mixed-phase comparisons: the solver tolerance only if the warm start is live"""
+    return TOL['flash_fugacity'] if WARM['live'] or WARM['live'] is None else 1e-12
+
+
 def corpus_case(k):
     from tamoc import dbm
     comp, fpt, m, T, P, Sa, Ta, status = CORPUS[k]
@@ -587,7 +630,7 @@ def intermediate_check(ctx, cases):
         if isinstance(res['return_all']['out'], Raised):
             continue
         mixed = c['descr']['fp_type'] == 2
-        tol = TOL['flash_fugacity'] if mixed else 1e-12
+        tol = mixed_tol() if mixed else 1e-12
         fo, mi0, mi1 = flash_outcome(res) if mixed else (None, None, None)
         nc = len(c['x']['m'])
         inter = {}
@@ -656,21 +699,126 @@ def library_contracts(ctx, cases, r, acc):
                         acc['bad_dirty'].append((name, args, resv, v))
 
 
+BAND_OF_SHAPE = {1: 'small', 2: 'mid', 3: 'large'}
+BAND_DE = {'small': (50e-6, 300e-6), 'mid': (1e-3, 6e-3), 'large': (2e-2, 5e-2)}
+TARGET_GAS = ['methane', 'ethane', 'propane', 'carbon_dioxide', 'nitrogen']
+TARGET_LIQ = ['n-hexane', 'toluene', 'benzene', 'n-heptane', 'n-decane', 'n-pentane']
+
+
+def targets():
+    """the regimes every run must contain (floors, checked as obligations): each phase type x each shape regime, the
+    three flash outcomes of a mixed-phase particle incl. two-phase with a zero-mass component, each inert shape"""
+    t = [('shape', fpt, sh) for sh in (1, 2, 3) for fpt in (0, 1, 2)]
+    t += [('flash', w, None) for w in ('mixzero', 'gas', 'liq') for _ in range(3)]
+    t += [('ishape', None, sh) for sh in (1, 2, 3, 4)]
+    return t
+
+
+def quick_flash(fp, m, T, P):
+    """('mix'|'gas'|'liq', seconds) of a cold flash, None if it raised / ran into the 1 s limit"""
+    t0 = time.time()
+    try:
+        with S.quiet(), time_limit(1.0):
+            mi, _x, _K = fp.equilibrium(np.array(m, dtype=float), T, P)
+    except Exception:
+        return None, float('inf')
+    g, l = float(np.sum(mi[0, :])), float(np.sum(mi[1, :]))
+    return ('liq' if g == 0. else ('gas' if l == 0. else 'mix')), time.time() - t0
+
+
+def gen_target(ctx, r, spec, state):
+    """draw particles / states until the pre-screen (one cheap call on the real code) shows the wanted regime"""
+    from tamoc import dbm
+    what, fpt, sh = spec
+    for _try in range(60):
+        st = gen_state(r)
+        if what == 'ishape':
+            obj, descr = gen_inert(r)
+            if (sh == 4) != (not descr['isfluid']):
+                continue
+            if sh != 4:
+                st['band'] = BAND_OF_SHAPE[sh]
+                st['de'] = lu(r, *BAND_DE[st['band']])
+            with S.quiet():
+                m = float(obj.mass_by_diameter(st['de'], st['T'], st['P'], st['Sa'], st['Ta']))
+                got = obj.return_all(m, st['T'], st['P'], st['Sa'], st['Ta'], st['status'])[0]
+            if int(got) != sh:
+                continue
+            return obj, 'inert', descr, dict(m=m, T=st['T'], P=st['P'], Sa=st['Sa'], Ta=st['Ta'], status=st['status']), st
+        if what == 'shape':
+            obj, descr, yk = gen_fluid(r, fpt)
+            st['band'] = BAND_OF_SHAPE[sh]
+            st['de'] = lu(r, *BAND_DE[st['band']])
+            m = fluid_masses(obj, yk, st, fpt)
+            if fpt == 2 and st['t_flash'] > 0.06:
+                continue
+            try:
+                with S.quiet(), time_limit(2.0):
+                    got = obj.return_all(np.array(m), st['T'], st['P'], st['Sa'], st['Ta'], st['status'])[0]
+            except Exception:
+                continue
+            obj.K = None
+            if int(got) != sh:
+                continue
+            descr['target'] = 'fp_type %d x shape %d' % (fpt, sh)
+            return obj, 'fluid', descr, dict(m=[float(v) for v in m], T=st['T'], P=st['P'], Sa=st['Sa'], Ta=st['Ta'], status=st['status']), st
+        # flash outcomes of a mixed-phase particle
+        n = r.randint(3, 5) if fpt is None else 3
+        ng = r.randint(1, n - 1)
+        comp = r.sample(TARGET_GAS, min(ng, len(TARGET_GAS))) + r.sample(TARGET_LIQ, n - ng)
+        r.shuffle(comp)
+        yk = S.random_yk(r, n)
+        zero = []
+        if sh is None and spec[1] == 'mixzero':
+            zero = sorted(r.sample(range(n), r.randint(1, n - 2)))
+            yk[zero] = 0.
+            yk = yk / yk.sum()
+            if not any(c in TARGET_GAS for i, c in enumerate(comp) if i not in zero) or \
+                    not any(c in TARGET_LIQ for i, c in enumerate(comp) if i not in zero):
+                continue
+        want = spec[1]
+        if want == 'gas':
+            st['P'] = lu(r, 1e5, 4e5)
+            st['T'] = r.uniform(300., 320.)
+        elif want == 'liq':
+            st['P'] = lu(r, 1.5e7, 4e7)
+        else:
+            st['P'] = lu(r, 3e5, 8e6)
+        with S.quiet():
+            obj = dbm.FluidParticle(list(comp), fp_type=2)
+        out, dt = quick_flash(obj, yk * obj.M, st['T'], st['P'])
+        if out != ('mix' if want == 'mixzero' else want) or dt > 0.06:
+            continue
+        descr = dict(kind='fluid', composition=list(comp), fp_type=2, yk=[float(v) for v in yk], zero=zero, delta_mode='zero',
+                     delta=None, isair=False, sigma_correction=1., target='flash ' + want)
+        m = fluid_masses(obj, yk, st, 2)
+        if st['t_flash'] > 0.06:
+            continue
+        return obj, 'fluid', descr, dict(m=[float(v) for v in m], T=st['T'], P=st['P'], Sa=st['Sa'], Ta=st['Ta'], status=st['status']), st
+    ctx.count('target regime not reached in 60 draws: %r' % (spec,))
+    return None
+
+
 def gen_case(ctx, r, i, kind, ck, state):
     """one generated particle + state; returns (obj, kind, descr, x, st) or None when the state is skipped"""
     st = gen_state(r)
     if kind == 'corpus':
         obj, descr, x, st = corpus_case(ck)
         return obj, 'fluid', descr, x, st
+    if kind == 'target':
+        return gen_target(ctx, r, ck, state)
     if kind == 'fluid':
-        # the first cases sweep fp_type x band so that every regime is present in every run
-        fpt = [0, 1, 2][i % 3] if i < 9 + len(CORPUS) else None
-        obj, descr, yk = gen_fluid(r, fpt)
-        if fpt is not None:
-            st['band'] = ['small', 'mid', 'large'][(i // 3) % 3]
-            st['de'] = {'small': lu(r, 50e-6, 300e-6), 'mid': lu(r, 1e-3, 6e-3), 'large': lu(r, 2e-2, 5e-2)}[st['band']]
-        m = fluid_masses(obj, yk, st, descr['fp_type'])
-        if descr['fp_type'] == 2 and (st['t_flash'] > 0.25 or (state['slow_budget'] <= 0 and st['t_flash'] > 0.06)):
+        obj, descr, yk = gen_fluid(r, None)
+        # a mixed-phase state whose flash is slow (the stability analysis at its iteration limit: a borderline split) is
+        # not dropped at once: up to 4 further states are pre-screened for the same particle
+        for k in range(5):
+            m = fluid_masses(obj, yk, st, descr['fp_type'])
+            slow = descr['fp_type'] == 2 and (st['t_flash'] > 0.25 or (state['slow_budget'] <= 0 and st['t_flash'] > 0.06))
+            if not slow:
+                break
+            ctx.count('mixed-phase candidate state with a slow flash (another state pre-screened)')
+            st = gen_state(r)
+        if slow:
             ctx.count('mixed-phase state skipped (flash slower than 60 ms)')
             return None
         x = dict(m=[float(v) for v in m], T=st['T'], P=st['P'], Sa=st['Sa'], Ta=st['Ta'], status=st['status'])
@@ -702,6 +850,10 @@ def predicate(ctx, c, state):
     ctx.count('band ' + c['band'])
     if zero_entry:
         ctx.count('mixed-phase with a zero entry in the liquid row')
+    if mi0 is not None and fo == 'mix' and any(v == 0. for v in mi0):
+        ctx.count('mixed-phase with a zero entry in the gas row')
+    if shape is not None:
+        ctx.count('regime fp_type=%s x shape %s (%s)' % (c['descr'].get('fp_type'), shape, kind))
     if c['descr'].get('zero'):
         ctx.count('zero-mass component(s)')
     if isinstance(ra, Raised) or any(isinstance(p, Raised) for p in parts):
@@ -730,7 +882,7 @@ def predicate(ctx, c, state):
                parts[5][0][0] if len(parts[5][0]) == 1 else float('nan')]
     c['ind'] = ind
     mixed = fo is not None
-    tol = TOL['flash_fugacity'] if mixed else 1e-12
+    tol = mixed_tol() if mixed else 1e-12
     diffs = cmp_tuples(ra, ind, tol)
     if len(ctx.samples) < 6 and (c['idx'] % 7 == 0):
         ctx.sample({'particle': c['descr'], 'inputs': c['x'], 'return_all': ra, 'individual': ind})
@@ -765,6 +917,7 @@ def predicate(ctx, c, state):
 def run(ctx, lean_ok):
     r = ctx.rng
     detect_code_variant(ctx)
+    detect_warm_start(ctx)
     repaired = not CODE['zeroEntryTest'] and not CODE['gasViscLiquidRow']
     ctx.code_variant = dict(CODE)
     ctx.oblige('the tree under test has the REPAIRED text of both defect sites (liquid-total test; gas-row viscosity): the '
@@ -775,7 +928,7 @@ def run(ctx, lean_ok):
     # mixed-phase states whose flash takes 60-250 ms (stability analysis at its iteration limit)
     state = dict(slow_budget=ctx.n(0, 20), nviol=0, ncases=0, nlines=0, nbad=0, worst=[0.], contracts=dict(nshape=0, ndirty=0, bad_shape=[], bad_dirty=[]))
     raises = {}
-    todo = [('corpus', k) for k in range(len(CORPUS))] + [('fluid', None)] * nfl + [('inert', None)] * nin
+    todo = [('corpus', k) for k in range(len(CORPUS))] + [('target', t) for t in targets()] + [('fluid', None)] * nfl + [('inert', None)] * nin
     BATCH = 200            # cases per driver run: bounds the memory taken by the recorded tables
     driver_ok = lean_ok
     with LibRecorder() as rec:
@@ -859,8 +1012,18 @@ def run(ctx, lean_ok):
                nraised <= 0.02 * max(state['nlines'] + nraised, 1) and state.get('both_raised', 0) <= 0.02 * max(state['ncases'], 1),
                str(sorted(raises))[:400])
     nskip = ctx.hist.get('mixed-phase state skipped (flash slower than 60 ms)', 0)
-    ctx.oblige('mixed-phase states skipped because of a slow flash: %d of %d planned fluid cases (ceiling 25 %%)' % (nskip, nfl),
-               nskip <= 0.25 * nfl, 'too many generated cases were skipped: the sample no longer covers the quantifier')
+    nmixed = sum(v for k, v in ctx.hist.items() if k.startswith('fluid fp_type=2'))
+    ctx.oblige('mixed-phase states skipped because every one of 5 pre-screened states had a slow flash: %d against %d mixed-phase cases run '
+               '(ceiling 10 %%)' % (nskip, nmixed), nskip <= 0.10 * max(nmixed + nskip, 1),
+               'too many generated cases were skipped: the sample no longer covers the quantifier')
+    H = ctx.hist
+    floors = [('mixed-phase with a zero entry in the liquid row', 3), ('mixed-phase with a zero entry in the gas row', 3),
+              ('fluid fp_type=2 flash:gas', 3), ('fluid fp_type=2 flash:liq', 3), ('fluid fp_type=2 flash:mix', 5)]
+    floors += [('regime fp_type=%d x shape %d (fluid)' % (f, sh), 1) for f in (0, 1, 2) for sh in (1, 2, 3)]
+    floors += [('shape %d (inert)' % sh, 1) for sh in (1, 2, 3, 4)]
+    short = [(k, H.get(k, 0), n) for k, n in floors if H.get(k, 0) < n]
+    ctx.oblige('generator floors: zero-entry two-phase (liquid row, gas row) >= 3, gas-only / liquid-only flash of a mixed-phase particle >= 3, '
+               'two-phase >= 5, every phase type x shape regime and every inert shape >= 1', not short, 'below floor: %r' % (short,))
     ctx.notes.append('%d of %d cases with differing tuples' % (state['nviol'], state['ncases']))
     for kk, lst in sorted(raises.items()):
         d, x, text = lst[0]
